@@ -169,5 +169,44 @@ PLANS['C05'] = Plan(
     technique='deductive contracts for seed selection and best-candidate choice; bounded run-time contract on the files of all modes',
 )
 
+PLANS['C17'] = Plan(
+    'C17', [OMP + 'trim', 'lemma::C17::trim_is_idempotent'], 'other',
+    "Deductive part (proved for all maps): OpticalMap.trim keeps the number of labels, moves the first label to 0, keeps every inter-label distance, sets the length "
+    "to last-first+1 and keeps the id; idempotence trim(trim(m)) = trim(m) is a lemma over that contract. BOUNDED: CmapReader (pandas) on generated CMAP text "
+    "(arbitrary ids, 0-8 labels, one-decimal coordinates, shuffled rows, extra columns, label-less molecules, id filters) against an independent parser.",
+    bounded=_lazy('bcheck.c17', 'bounded'), replay=_lazy('bcheck.c17', 'replay'),
+    technique='deductive contract + lemma for trimming (own VC generator + z3); bounded differential check of the pandas reader',
+    assumptions=['CmapReader / BionanoFileReader (pandas): bounded only'],
+)
+PLANS['C18'] = Plan(
+    'C18', ['src/correlation/bionano_alignment.py::BionanoAlignment.parse'], 'other',
+    "Deductive part: BionanoAlignment.parse stores int() of the column of the same meaning in each field (no transposition). BOUNDED: the writer and reader go "
+    "through pandas (to_csv / read_csv / DataFrame.apply) and string formatting, outside the verifier: every file written by the real program on generated sets "
+    "is read back and compared field by field with the text; pair-string parsing is enumerated on short strings.",
+    bounded=_lazy('bcheck.c18', 'bounded'), replay=_lazy('bcheck.c18', 'replay'),
+    technique='bounded round-trip contract on the real writer/reader; deductive contract for the field wiring of BionanoAlignment.parse',
+    assumptions=['XmapReader.writeAlignments / readAlignments (pandas, string formatting): bounded only'],
+)
+
+PLANS['C19'] = Plan(
+    'C19', ['src/diagnostic/alignment_comparer.py::AlignmentRowComparer.__getCoverage'], 'other',
+    "Deductive part: AlignmentRowComparer.__getCoverage lies in [0,1], is 1 for an empty list or no exclusive pairs, and equals (n-d)/n (no division by zero). "
+    "BOUNDED: AlignmentComparer.compare / AlignmentRowComparer.compare use dict, set and difflib.SequenceMatcher, outside the verifier: all pairs of small "
+    "alignment sets (with duplicated keys, empty and duplicated-label pair lists), both settings of combineMultipleQuerySources: key partition, set "
+    "differences, measures in [0,1], reflexivity, swap symmetry.",
+    bounded=_lazy('bcheck.c19', 'bounded'), replay=_lazy('bcheck.c19', 'replay'),
+    technique='bounded exhaustive small-scope contract on the real comparer; deductive contract for the coverage formula',
+    assumptions=['dict / set / difflib based comparison: bounded only'],
+)
+PLANS['C20'] = Plan(
+    'C20', [], 'exploration',
+    "BOUNDED only: cluster_indels mutates the previous cluster through an alias and concatenates ids as strings, and the finders read dictionaries of "
+    "alignments - outside the subset of the VC generator. The four clustering clauses are a run-time contract on the real cluster_indels over all short sorted "
+    "call lists around the blur distance (exactly at / inside / outside, types and chromosomes mixed) and random longer lists; write_indel_file is re-read; the "
+    "two indel finders are checked on synthetic alignments around both size bands (Length, type, band).",
+    bounded=_lazy('bcheck.c20', 'bounded'), replay=_lazy('bcheck.c20', 'replay'),
+    technique='bounded exhaustive small-scope run-time contract on the real functions (no deductive part: aliasing / string concatenation)',
+)
+
 NOT_APPLICABLE = {}
-FIX_COMMITS = ['a1f5353', '24a396c', 'd3d25c6', '9ca2be3']
+FIX_COMMITS = ['a1f5353', '24a396c', 'd3d25c6', '9ca2be3', 'e4731ef']
